@@ -241,6 +241,22 @@ impl Column {
         bits
     }
 
+    /// Returns true if this column definition can be stored in the database
+    /// catalog tables without being altered.
+    pub(crate) fn is_representable(&self) -> bool {
+        let width_fits = match self.coltype {
+            ColumnType::Str(max_len) => {
+                max_len <= COL_FIELD_SIZE_MASK as usize
+            }
+            _ => true,
+        };
+        width_fits
+            && self
+                .enum_values
+                .iter()
+                .all(|value| !value.is_empty() && !value.contains(';'))
+    }
+
     /// Returns true if the given string is a valid column name.
     pub(crate) fn is_valid_name(name: &str) -> bool {
         Category::Identifier.validate(name)
